@@ -330,14 +330,15 @@ class ExprMixin:
                     spec = ''
                     if p.format_spec is not None and all(isinstance(x, ast.Constant) for x in p.format_spec.values):
                         spec = ''.join(x.value for x in p.format_spec.values)
-                    if v.is_const and p.conversion == -1:
+                    if v.is_const and p.conversion in (-1, 115, 114, 97):
                         try:
-                            text += format(v.val, spec)
+                            cv = {-1: lambda x: x, 115: str, 114: repr, 97: ascii}[p.conversion](v.val)
+                            text += format(cv, spec)
                             continue
                         except Exception:
                             pass
                     exact = False
-                    if v.k == 'str' and p.conversion == -1 and not spec:
+                    if v.k == 'str' and p.conversion in (-1, 115) and not spec:
                         text += v.a[0]
                         specs.extend(_specs_of(v))
                     else:
